@@ -262,7 +262,10 @@ def pins(db, rep, rule):
             if t.aborted:
                 continue
             small = t.decisions.get("(-10000000 + consts.POP) < 0")
-            k = (str(t.mc), small)
+            import re as _re2
+            extra = ",".join(f"{k_}={'T' if v_ else 'F'}" for k_, v_ in sorted(t.decisions.items())
+                             if not _re2.fullmatch(r"consts\.[A-Za-z_0-9]+", k_) and k_ != "(-10000000 + consts.POP) < 0")
+            k = (str(t.mc), small, extra)
             if k in seen:
                 continue
             seen.add(k)
@@ -288,7 +291,7 @@ def pins(db, rep, rule):
                 else:
                     hi = -ratio.const_value() / cv.const_value()
             ok = lo is not None and hi is not None and lo < 1 < hi and (1 - lo) == (hi - 1) and (hi - 1) <= Fraction(1, 1000)
-            rep.check(ok, rule, f"pin[{food}|months{t.mc}|{'small-pop' if small else 'normal'}]",
+            rep.check(ok, rule, f"pin[{food}|months{t.mc}|{'small-pop' if small else 'normal'}{'|' + extra if extra else ''}]",
                       f"round 2 does not pin {fam} (x {coef}) to the handed-off minimum human consumption of {food} within a "
                       f"symmetric tolerance <= 1e-3 (found lower x{lo}, upper x{hi})", loc=OPT)
 
